@@ -76,6 +76,15 @@ func PlayMulti(beh M, rng *rand.Rand, proj *Projection) ([][]M, error) {
 		wg.Wait()
 		tlsOK = x.TLSIntact()
 	}
+	if I(beh, "_i")%8 == 7 {
+		// earlier in the life of this server a good many cancel requests came in (client libraries send one for every
+		// query that timed out): they use nothing up that later connections need
+		for k := 0; k < 70; k++ {
+			cc := x.Dial()
+			cc.Send(pgw.Cancel(uint32(k+1), 77))
+			cc.WaitClosed(WaitTimeout) //nolint
+		}
+	}
 	s := NewSched(x)
 	s.OnlyPark = map[string]bool{"h.enter": true}
 	s.ParkOnce = map[string]string{}
